@@ -197,9 +197,9 @@ func c18Scenarios(r *hx.Run) []hx.Scenario {
 	for _, c := range cfgs {
 		// timely: all wake orders of notification goroutines whose delays end at the same instant (created in
 		// the same burst), plus one preemption among them
-		pb := 0
+		pb := 1
 		if r.Thorough() {
-			pb = 1
+			pb = 2
 		}
 		out = append(out, hx.Scenario{Name: "c18:timely:" + c.name, Body: c18Body(c), Bounds: simrt.B(pb, 0, 0),
 			Cfg: simrt.Config{MaxSteps: 100000, BranchOnly: []string{"HandleShipHandshakeStateUpdate"}, BranchNoStart: true}})
